@@ -446,9 +446,9 @@ func runC15(c *ctx) {
 		cases = append(cases, cs)
 	} else {
 		fixed := []string{
-			"fff1616263",           // IAC NOP a b c  (F8 witness)
-			"61fff962",             // a IAC GA b
-			"61ffff62",             // a IAC IAC b
+			"fff1616263",                       // IAC NOP a b c  (F8 witness)
+			"61fff962",                         // a IAC GA b
+			"61ffff62",                         // a IAC IAC b
 			"fffd03fffb01fffb036c6f67696e3a20", // DO SGA, WILL ECHO, WILL SGA, "login: "
 			"fffd18fffd20fffd23fffd27",         // DO TTYPE, TSPEED, XDISPLOC, NEW-ENVIRON
 			"fffe01fffc01",                     // DONT ECHO, WONT ECHO
@@ -556,50 +556,6 @@ func runC15(c *ctx) {
 		res.Note("exhaustive step correspondence: 1536 (state, byte) pairs through the overlay export with a recording net.Conn")
 	} else {
 		res.Note("internal tie unavailable: step correspondence and stream-level internal oracle skipped; public-level tie only")
-	}
-
-	// (b) internal tie, streams: every generated opening through the real step function
-	if c15InternalAvailable {
-		for i, cs := range cases {
-			l := leans[i]
-			impl, perr := c15implStream(cs.opening)
-			res.Count("internal-stream:" + cs.class)
-			if l.dom {
-				res.Count("internal-stream:in-domain")
-			}
-			if !cs.public {
-				res.Case("i:"+vlib.Hex(cs.opening), bytes.IndexByte(cs.opening, c15IAC) >= 0)
-				if l.dom {
-					res.InDomain++
-				}
-			}
-			line := cs.line()
-			if perr != "" {
-				kind := "correspondence"
-				if l.dom {
-					kind = "oracle"
-				}
-				res.Fail(kind, line, "handleControlCharResponse over the opening: "+perr, "stream-panic-or-error")
-				continue
-			}
-			if l.dom {
-				if impl.data != l.specData {
-					sig := "data-wrong"
-					if impl.data == l.asis.data {
-						sig = "data-swallowed-after-iac-command"
-					}
-					res.Fail("oracle", line, fmt.Sprintf("opening %x: initialBuf after negotiation = %s, the opening's data is %s (parser state %s)", cs.opening, impl.data, l.specData, impl.ctrl), sig+":internal")
-					continue
-				}
-				if impl.replies != l.specRepl {
-					res.Fail("oracle", line, fmt.Sprintf("opening %x: replies written = %s, demanded %s", cs.opening, impl.replies, l.specRepl), "replies-wrong:internal")
-					continue
-				}
-			}
-			if impl != l.model {
-				res.Fail("correspondence", line, fmt.Sprintf("opening %x: impl ctrlBuf data writes = %s ; model %s", cs.opening, impl, l.model), "stream-vs-model")
-			}
-		}
 	}
 
 	// (c) public level
@@ -742,6 +698,50 @@ func runC15(c *ctx) {
 		for k, i := range readIdx {
 			if rans[k] != vlib.HexList(obs[i].reads) {
 				res.Fail("correspondence", cases[i].line(), fmt.Sprintf("reads after Open returned %s ; model Conn.reads %s", vlib.HexList(obs[i].reads), rans[k]), "reads-vs-model")
+			}
+		}
+	}
+	// (b) internal tie, streams: every generated opening through the real step function (after the
+	// public level, so that a failing input is reported with its public-level observation first)
+	if c15InternalAvailable {
+		for i, cs := range cases {
+			l := leans[i]
+			impl, perr := c15implStream(cs.opening)
+			res.Count("internal-stream:" + cs.class)
+			if l.dom {
+				res.Count("internal-stream:in-domain")
+			}
+			if !cs.public {
+				res.Case("i:"+vlib.Hex(cs.opening), bytes.IndexByte(cs.opening, c15IAC) >= 0)
+				if l.dom {
+					res.InDomain++
+				}
+			}
+			line := cs.line()
+			if perr != "" {
+				kind := "correspondence"
+				if l.dom {
+					kind = "oracle"
+				}
+				res.Fail(kind, line, "handleControlCharResponse over the opening: "+perr, "stream-panic-or-error")
+				continue
+			}
+			if l.dom {
+				if impl.data != l.specData {
+					sig := "data-wrong"
+					if impl.data == l.asis.data {
+						sig = "data-swallowed-after-iac-command"
+					}
+					res.Fail("oracle", line, fmt.Sprintf("opening %x: initialBuf after negotiation = %s, the opening's data is %s (parser state %s)", cs.opening, impl.data, l.specData, impl.ctrl), sig+":internal")
+					continue
+				}
+				if impl.replies != l.specRepl {
+					res.Fail("oracle", line, fmt.Sprintf("opening %x: replies written = %s, demanded %s", cs.opening, impl.replies, l.specRepl), "replies-wrong:internal")
+					continue
+				}
+			}
+			if impl != l.model {
+				res.Fail("correspondence", line, fmt.Sprintf("opening %x: impl ctrlBuf data writes = %s ; model %s", cs.opening, impl, l.model), "stream-vs-model")
 			}
 		}
 	}
